@@ -839,6 +839,13 @@ func (e *Engine) findIndicesCharClassSearcherAt(haystack []byte, at int) (int, i
 	return e.charClassSearcher.SearchAt(haystack, at)
 }
 
+// maxCompositeBacktrackLen bounds the input given to the backtracking CompositeSearcher
+// (used when the pattern has no CompositeSequenceDFA: bounded or optional parts). For
+// every start position it tries every split of a run between consecutive parts, so its
+// running time is polynomial in the input length with degree = number of parts (cubic
+// for [ab]+[ab]{2,}[a0]+): longer inputs go to the linear-time engines.
+const maxCompositeBacktrackLen = 64
+
 // findIndicesCompositeSearcher searches using CompositeSearcher - zero alloc.
 func (e *Engine) findIndicesCompositeSearcher(haystack []byte) (int, int, bool) {
 	// Prefer DFA over backtracking (2-4x faster for overlapping patterns)
@@ -846,7 +853,7 @@ func (e *Engine) findIndicesCompositeSearcher(haystack []byte) (int, int, bool) 
 		atomic.AddUint64(&e.stats.DFASearches, 1)
 		return e.compositeSequenceDFA.Search(haystack)
 	}
-	if e.compositeSearcher == nil {
+	if e.compositeSearcher == nil || len(haystack) > maxCompositeBacktrackLen {
 		return e.findIndicesNFA(haystack)
 	}
 	atomic.AddUint64(&e.stats.NFASearches, 1)
@@ -860,7 +867,7 @@ func (e *Engine) findIndicesCompositeSearcherAt(haystack []byte, at int) (int, i
 		atomic.AddUint64(&e.stats.DFASearches, 1)
 		return e.compositeSequenceDFA.SearchAt(haystack, at)
 	}
-	if e.compositeSearcher == nil {
+	if e.compositeSearcher == nil || len(haystack)-at > maxCompositeBacktrackLen {
 		return e.findIndicesNFAAt(haystack, at)
 	}
 	atomic.AddUint64(&e.stats.NFASearches, 1)
